@@ -389,8 +389,16 @@ class Gen:
             self.features.add('goto')
             return (['if (%s) goto %s;' % (self.expr(ctx, ed)[0], lab)] + self.stmts(ctx, depth - 1, r.randint(1, 2))
                     + ['%s: ;' % lab])
-        if k < 0.96 and ctx['structvars']:
+        if k < 0.93 and ctx['structvars']:
             return self.struct_stmt(ctx)
+        if k < 0.96:
+            # overflow-checking builtins (gcc and c2m): operands and result of one and the same type
+            t = r.choice(['int', 'uint', 'long', 'ulong'])
+            v = self.fresh('ov')
+            f = r.choice(['add', 'sub', 'mul'])
+            self.features.add('builtin-overflow')
+            return ['{ %s %s = 0; mix ((u64)(__builtin_%s_overflow (%s, %s, &%s) + 1)); mix ((u64)%s); }'
+                    % (self.c(t), v, f, self.cast(t, self.expr(ctx, ed)[0]), self.cast(t, self.expr(ctx, ed)[0]), v, v)]
         # block with a local
         t = r.choice(NAMES)
         v = self.fresh('t')
